@@ -220,11 +220,12 @@ def eval_seq(item: T.Tuple[dict, T.List[dict]]) -> T.Tuple[str, T.List[T.Tuple[s
     w, reqs = item
     s = D.Session(w)
     p = D.Policy(w)
-    res, hits, tags, outs = [], [], [], []
+    res, hits, tags, outs, pol = [], [], [], [], []
     for i, r in enumerate(reqs):
         wb = s.snapshot()
         out, eff = s.lookup(r)
         pout = p.decide(r)
+        pol.append(D.canon_out(pout) + ('' if pout == 'error' else '~' + D.canon_world_enc(p.w)))
         cls = 'error' if out.startswith('error') else out
         outs.append(cls)
         tags.append(out.split(':')[0] if not out.startswith('error') else out)
@@ -250,7 +251,7 @@ def eval_seq(item: T.Tuple[dict, T.List[dict]]) -> T.Tuple[str, T.List[T.Tuple[s
                     hits.append(('repeat-differs', f'immediately repeated lookup returned {outs[j]} then {cls}', i))
         if cls == 'error':
             break
-    return '#'.join(res), hits, tags
+    return '#'.join(res), hits, tags, '#'.join(pol)
 
 
 def eval_chunk(items):
@@ -291,7 +292,7 @@ def run_dep(ctx: Ctx) -> None:
     ctx.extra['dep_cells_total'] = total
     ctx.extra['dep_cells_run'] = n_struct
     ctx.extra['dep_sequences'] = len(items) - n_struct
-    for (w, reqs), (canon, hits, tags) in zip(items, results):
+    for (w, reqs), (canon, hits, tags, _pol) in zip(items, results):
         for t in tags:
             ctx.tag('dep:' + t)
         for cls, msg, i in hits:
@@ -299,11 +300,26 @@ def run_dep(ctx: Ctx) -> None:
             ctx.violation(vkey(cls, case), f'{cls}: {msg}', case)
     if ctx.model_available:
         answers = ctx.driver('dep', [D.line_seq(w, reqs) for w, reqs in items])
-        for (w, reqs), (canon, _h, tags), ans in zip(items, results, answers):
+        for (w, reqs), (canon, _h, tags, _pol), ans in zip(items, results, answers):
             if canon != ans:
                 ctx.disagreement({'kind': 'dep', 'world': w, 'requests': reqs, 'impl': canon, 'model': ans})
             if tags and tags[0] != 'error:InvalidArguments':
                 ctx.seen_nontrivial(('dep', ans))
+        # the Lean decision table `policy` against the Python decision table, and against the Lean `lookup`
+        # (the latter is theorem `lookup_eq_policy`; running it is only a test of the statement's reading)
+        pol_answers = ctx.driver('dep', ['pol ' + D.line_seq(w, reqs)[4:] for w, reqs in items])
+        for (w, reqs), (_c, _h, _t, pol), pans, ans in zip(items, results, pol_answers, answers):
+            lean_pol = '#'.join(x if not x.startswith('error') else 'error' for x in pans.split('#'))
+            if lean_pol != pol:
+                ctx.disagreement({'kind': 'policy-table', 'world': w, 'requests': reqs, 'python_policy': pol, 'lean_policy': lean_pol})
+            steps = []
+            for x in ans.split('#'):
+                o, _e, wd = x.split('~')
+                steps.append('error' if o.startswith('error') else o + '~' + wd)
+            if '#'.join(steps) != lean_pol:
+                ctx.disagreement({'kind': 'lean-lookup-vs-lean-policy', 'world': w, 'requests': reqs,
+                                  'lookup': '#'.join(steps), 'policy': lean_pol})
+        ctx.extra['policy_table_cells_compared'] = len(items)
     for it in items[::max(1, len(items) // 4)][:4]:
         ctx.sample({'kind': 'dep', 'world': it[0], 'requests': it[1]})
 
@@ -485,7 +501,9 @@ def run_e2e(ctx: Ctx) -> None:
             for call, fbkind in (("dependency('foo', required: false)", 'implicit-optional'),
                                  ("dependency('foo', required: false, allow_fallback: true)", 'implicit-allowed'),
                                  ("dependency('foo', version: '>=2.0', required: false, fallback: 'foosub')", 'explicit'),
-                                 ("dependency('foo', required: false, allow_fallback: false)", 'none')):
+                                 ("dependency('foo', required: false, allow_fallback: false)", 'none'),
+                                 # with a detection method: the subproject's override must still be found (fixed cc19239)
+                                 ("dependency('foo', method: 'pkg-config', required: false, allow_fallback: true)", 'implicit-allowed')):
             # CMAKE is pointed at a missing binary below: with --backend=none the cmake detection method raises
             # MesonBugException (no CMake generator for that backend), which is outside C10
                 grid.append((sysver, wm, call, fbkind))
@@ -551,6 +569,22 @@ def witness_method_kwarg(ctx: Ctx) -> None:
                       f"dependency('foo', method: 'pkg-config', required: false) returned {got} although 'foo' is overridden "
                       "(get_dep_identifier keys the override on the method keyword)",
                       {'kind': 'witness', 'world': w, 'call': "dependency('foo', method: 'pkg-config', required: false)"})
+    # write side: the result of a lookup with a method keyword is what later lookups of the name return,
+    # and meson.override_dependency() afterwards sees the name as resolved
+    w2 = {'wrap_mode': 'default', 'fff': [], 'overrides': {}, 'cache': {}, 'system': {'foo': '1.0'}, 'provides': {}, 'subprojects': {}}
+    s2 = D.Session(w2)
+    I.dependencies.find_external_dependency = s2.find_external_dependency
+    try:
+        df = I.DF.DependencyFallbacksHolder(s2.interp, ['foo'], s2.HOST, None, None)
+        d1 = df.lookup({'native': s2.HOST, 'version': [], 'required': False, 'method': DependencyMethods.PKGCONFIG})
+    finally:
+        I.dependencies.find_external_dependency = saved
+    ctx.count()
+    if d1.found() and s2._ident('foo') not in s2.build.dependency_overrides[s2.HOST]:
+        ctx.violation('implicit-override-keyed-on-method',
+                      "after dependency('foo', method: 'pkg-config') succeeded, 'foo' is not recorded as resolved for lookups and "
+                      "override_dependency() without that keyword",
+                      {'kind': 'witness', 'world': w2, 'call': "dependency('foo', method: 'pkg-config', required: false)"})
 
 
 # ------------------------------------------------------------------------------------------ entry points
@@ -559,7 +593,7 @@ def run(ctx: Ctx) -> None:
     ctx.rule = ('(a) every cell of the single-name cross product system{absent,1.0,2.0} x fallback{none,explicit,explicit+var,[],provide,'
                 'provide+var,explicit+provide} x subproject{unconfigured ok/failing, configured, disabled} x 9 subproject contents x '
                 '6 prior override/cache states x 5 wrap modes x 3 force_fallback_for x 2 constraints x required x allow_fallback, each looked up '
-                'twice (quick: 15000 sampled cells; thorough/pin change: all), plus random worlds with two names and sequences <= 3 incl. '
+                'twice (quick: 15000 sampled cells of 816480; thorough/pin change: all), plus random worlds with two names and sequences <= 3 incl. '
                 'malformed arguments; (b) every corruption class {good, other valid archive, garbage, wrong top directory} x location '
                 '{packagefiles, cache, URL, fallback URL after failure, fallback URL after bad hash} x recorded hash {good, bogus, none} x '
                 '(no fault | one fault at each of 22 fault points (quick: 6 sampled) | nodownload), for source and patch, plus random cases with up to 8 faults. '
@@ -599,7 +633,7 @@ def search(ctx: Ctx, disagreements: T.List[dict]) -> None:
             wraps.append(c3)
     for _ in range(20000 if not disagreements else 5000):
         items.append(rseq(rng))
-    for (w, reqs), (_c, hits, _t) in zip(items, [x for part in pool_map(eval_chunk, items, 1000) for x in part]):
+    for (w, reqs), (_c, hits, _t, _p) in zip(items, [x for part in pool_map(eval_chunk, items, 1000) for x in part]):
         for cls, msg, i in hits:
             case = {'kind': 'dep', 'world': w, 'requests': reqs, 'at': i}
             ctx.violation(vkey(cls, case), f'{cls}: {msg}', case)
@@ -614,7 +648,7 @@ def replay(ctx: Ctx, rep: dict) -> None:
     case = rep.get('case') or (rep.get('correspondence_disagreements') or [{}])[0]
     print('replay', rep.get('what', ''), json.dumps(case)[:2000])
     if case.get('kind') == 'dep':
-        canon, hits, tags = eval_seq((case['world'], case['requests']))
+        canon, hits, tags, _pol = eval_seq((case['world'], case['requests']))
         print('impl  :', canon)
         print('oracle:', hits or 'ok')
         if ctx.model_available:
